@@ -202,6 +202,50 @@ def rule_avoid(run):
         run.unknown(key, 'regeneration loop condition `%s` not recognised' % norm(whiles[0].test), where=fi.where(whiles[0]))
 
 
+def rule_avoid_callers(run):
+    """add_layers only keeps the generated names clear of the surface-layer name *it* uses.  A caller that gives the
+    surface layer another name afterwards (refine_layers keeps the old atmosphere layer name) must have had that name
+    avoided too, or it can coincide with a regenerated layer name."""
+    run.current_rule = 'AVOID'
+    prog = run.prog
+    cls = prog.cls('mulgrids', 'mulgrid')
+    al = cls.methods['add_layers']
+    # which parameter of add_layers (if any) supplies the avoided name
+    avoided_param = None
+    for n in walk_no_nested(al.node):
+        if isinstance(n, ast.While) and isinstance(n.test, ast.Compare) and isinstance(n.test.ops[0], ast.Eq):
+            for x in (n.test.left, n.test.comparators[0]):
+                if isinstance(x, ast.Name) and x.id in al.params: avoided_param = x.id
+    for fi in sorted(cls.methods.values(), key=lambda f: f.name):
+        calls = [c for c in walk_no_nested(fi.node) if isinstance(c, ast.Call) and call_name(c) == 'add_layers' and is_self_attr(c.func)]
+        if not calls or fi.name == 'add_layers': continue
+        # a later rename / assignment of the surface layer's name
+        later = []
+        for n in walk_no_nested(fi.node):
+            if n is calls[0] or getattr(n, 'lineno', 0) <= calls[0].lineno: continue
+            if isinstance(n, ast.Call) and call_name(n) == 'rename_layer' and len(n.args) == 2 and 'layerlist[0]' in norm(n.args[0]):
+                later.append((n, n.args[1]))
+            if isinstance(n, ast.Assign) and any('layerlist[0].name' in norm(t) for t in n.targets): later.append((n, n.value))
+        key = 'mulgrid.%s :: the surface layer name it ends up with was avoided by add_layers' % fi.name
+        if not later:
+            run.ok(key, 'keeps the surface layer name add_layers chose', where=fi.where(calls[0])); continue
+        node, newname = later[0]
+        passed = None
+        if avoided_param is not None:
+            params = al.params[1:]
+            for i, a in enumerate(calls[0].args):
+                if i < len(params) and params[i] == avoided_param: passed = a
+            for k in calls[0].keywords:
+                if k.arg == avoided_param: passed = k.value
+        if passed is not None and norm(passed) == norm(newname):
+            run.ok(key, 'the name `%s` is handed to add_layers, which keeps the generated names clear of it' % norm(newname), where=fi.where(node))
+        else:
+            run.violated(key, 'after add_layers has generated the layer names (clear only of its own surface-layer name), the surface layer is '
+                         'renamed to `%s`: when that name is one of the regenerated names (a geometry whose atmosphere layer is called " 1") two '
+                         'layers share a name, the by-name dictionary loses one and the written file does not read back' % norm(newname),
+                         where=fi.where(node))
+
+
 def rule_fresh(run):
     run.rule('FRESH', 'new_dict_key returns only a key it has just tested to be absent from the dictionary', floor=1)
     fi = run.prog.func('mulgrids.new_dict_key')
@@ -270,5 +314,6 @@ def check(run):
     run.guarded('SLICE', rule_slice)
     run.guarded('LENGUARD', rule_lenguard)
     run.guarded('AVOID', rule_avoid)
+    run.guarded('AVOID', rule_avoid_callers)
     run.guarded('FRESH', rule_fresh)
     run.guarded('UNFIX', rule_unfix)
